@@ -194,6 +194,14 @@ def named_family():
         {"name": "cs", "type": {"type": "array", "items": "C"}}]})
     # named types at top level inside unions / arrays
     out.append([E(), F(), R1()])
+    # primitives spelled in dict form inside unions (float before a dict-form double), single-branch unions
+    out.append(["float", {"type": "double"}])
+    out.append(["null", "float", {"type": "double", "unit": "m"}, {"type": "string"}])
+    out.append(rec("R", ["string"], {"type": "array", "items": ["int"]}, {"type": "map", "values": [R1()]}))
+    out.append(["long"])
+    # the 'error' spelling of a record
+    out.append({"type": "error", "name": "Err", "fields": [{"name": "msg", "type": "string"}, {"name": "code", "type": "int", "default": 7}]})
+    out.append(rec("R", {"type": "error", "name": "Err", "fields": [{"name": "m", "type": "string"}]}, ["null", "Err"]))
     # branch names that are suffixes of one another, with fields of different types (a hint must match exactly)
     out.append([{"type": "record", "name": "ZEvent", "fields": [{"name": "v", "type": "boolean"}]},
                 {"type": "record", "name": "Event", "fields": [{"name": "v", "type": "string"}]},
